@@ -335,6 +335,22 @@ theorem overlay_opts_in (s : State) (cid body : Bytes) (hlen : cid.length = 20) 
     rw [← hl]; exact List.take_left
   simp [step, State.anonymized, ht, dictGet_dictSet]
 
+/-- **Once a prefix is anonymized it never reaches the raw socket** (state form of the next theorem): from any state
+    whose settings hold `True` for a 22-byte prefix, through any history without `set_anonymity(prefix, False)` and
+    without a tunnel community of that very prefix being attached. -/
+theorem anonymized_prefix_never_raw (s : State) (pfx : Bytes) (hl : pfx.length = prefixLen)
+    (h0 : dictGet s.settings pfx = some true) (ops : List Op)
+    (hno : ∀ o ∈ ops, o ≠ .setAnonymity pfx false ∧ o ≠ .attachCommunity pfx) :
+    ∀ x ∈ trace s ops, ∀ a body, Event.raw a (pfx ++ body) ∉ x.2.2 := by
+  intro x hx a body hmem
+  obtain ⟨_, hplain⟩ := no_raw_leak _ ops x hx a _ hmem
+  obtain ⟨pre, post, hops, hst, _⟩ := trace_mem ops _ x hx
+  have ht : (pfx ++ body).take prefixLen = pfx := by rw [← hl]; exact List.take_left
+  have hk := runState_keeps_anonymized pre _ _ h0 (by
+    intro o ho; exact hno o (by rw [hops]; simp [ho]))
+  rw [hst] at hplain
+  simp [State.anonymized, ht, hk] at hplain
+
 /-- **Anonymized overlays never send from the node's own address.**  Once an overlay has opted in, then through any
     history in which nobody switches its prefix off again, no packet starting with that overlay's prefix is ever
     handed to the wrapped endpoint's `send` — with or without tunnel community, circuits, queue space. -/
@@ -381,6 +397,48 @@ theorem shared_prefix_stays_anonymized (s : State) (cid : Bytes) (hlen : cid.len
   · exact hpre o ho
   · simp
   · exact hpost o ho
+
+/-- **The service hands every overlay the TunnelEndpoint itself.**  Whatever `enable_statistics` is, when some configured
+    overlay asks for anonymity the outermost decorator `IPv8.__init__` builds (generated `serviceWrappers`) is the
+    TunnelEndpoint — which is what `Community.__init__`'s `isinstance(self.endpoint, TunnelEndpoint)` needs. -/
+theorem service_hands_overlays_the_tunnel_endpoint (stats : Bool) :
+    (serviceWrappers stats true).getLast? = some .tunnel ∧ optInNeedsTunnelEndpoint = true := by
+  cases stats <;> decide
+
+/-- **The opt-in silently fails behind a decorator.**  (Why the order above matters.)  An overlay constructed with
+    `anonymize` over an endpoint that merely forwards to a TunnelEndpoint is not anonymized: its packets are sent raw. -/
+theorem optin_fails_behind_a_decorator :
+    ∃ (s : State) (cid : Bytes) (a : Addr) (body : Bytes), cid.length = 20 ∧
+      (step (step s (.overlayForeign cid true)).1 (.send a (overlayPrefix cid ++ body))).2
+        = [.raw a (overlayPrefix cid ++ body)] :=
+  ⟨init 2, List.replicate 20 0xAA, 3, [1], by decide, by decide⟩
+
+/-- **An overlay configured with `anonymize` in the IPv8 service never sends raw.**  After `IPv8.__init__` has loaded
+    the configured overlays (any statistics setting, any mix of anonymized and plain overlays, shared ids included),
+    through any later history without an explicit `set_anonymity(prefix, False)` / a tunnel community of that prefix,
+    no packet with the prefix of an overlay configured with `anonymize: True` reaches the raw socket. -/
+theorem service_anonymized_overlay_never_raw (cap : Nat) (stats : Bool) (ovs : List (Bytes × Bool)) (cid : Bytes)
+    (hin : (cid, true) ∈ ovs) (hlen : cid.length = 20) (ops : List Op)
+    (hno : ∀ o ∈ ops, o ≠ .setAnonymity (overlayPrefix cid) false ∧ o ≠ .attachCommunity (overlayPrefix cid)) :
+    ∀ x ∈ trace (runState (init cap) (serviceOps stats ovs)) ops,
+      ∀ a body, Event.raw a (overlayPrefix cid ++ body) ∉ x.2.2 := by
+  have hl : (overlayPrefix cid).length = prefixLen := by
+    simp [overlayPrefix, communityPrefixHead, prefixLen, hlen]
+  have hany : ovs.any (·.2) = true := List.any_eq_true.2 ⟨(cid, true), hin, rfl⟩
+  have htop : (serviceWrappers stats (ovs.any (·.2))).getLast? = some .tunnel := by
+    rw [hany]; exact (service_hands_overlays_the_tunnel_endpoint stats).1
+  have hops : serviceOps stats ovs = ovs.map (fun o => Op.overlay o.1 o.2) := by
+    simp [serviceOps, htop]
+  obtain ⟨l1, l2, rfl⟩ := List.append_of_mem hin
+  apply anonymized_prefix_never_raw _ _ hl _ ops hno
+  rw [hops, List.map_append, List.map_cons, runState_append]
+  simp only [runState]
+  apply runState_keeps_anonymized
+  · simp [step, dictGet_dictSet]
+  · intro o ho
+    simp only [List.mem_map] at ho
+    obtain ⟨e, _, rfl⟩ := ho
+    simp
 
 /-- **Delivery filter by origin.**  `TunnelEndpoint.notify_listeners((origin, p), from_tunnel)` offers the packet to
     exactly those listeners the wrapped endpoint has for it — the overlays registered for the packet's 22-byte prefix
